@@ -6,10 +6,12 @@
    contracted completely), plus the complete contraction of both operands.
    The branch "self contracted completely, other longer" (num_axes = order of self < order of other) is proved for all four
    modes as well (C02_tensordot_*_full), so every structural case of tensordot has its value theorem.
-   PARTIAL: squeeze, build_core and the composed tt2qtt are covered by model + correspondence + side check. *)
+   squeeze keeps every entry (C02_squeeze: the mode-less cores are multiplied into their neighbours, leading ones into the
+   first core with a mode).
+   PARTIAL: build_core and the composed tt2qtt are covered by model + correspondence + side check. *)
 From Coq Require Import ZArith List Lia Arith.
 Import ListNotations.
-Require Import Ring Sums Matrix Core Chain Sweep Structure SweepProof StructProof TensordotProof TensordotModes.
+Require Import Ring Sums Matrix Core Chain Sweep Structure SweepProof StructProof TensordotProof TensordotModes SqueezeProof.
 Open Scope cr_scope.
 
 (* the accumulated matrix of tensordot = sum over the row and column indices of the contracted
@@ -173,6 +175,14 @@ Theorem C02_rank_tensordot (R : cring) (cs : list (core R)) c n Mat xs ys x y i 
 Proof. exact (chain_rank_tensordot_last cs c n Mat xs ys x y i j). Qed.
 Print Assumptions C02_rank_tensordot.
 
+(* squeeze: the entry at the indices of the remaining modes is the entry of the original train (indices 0 at the removed,
+   mode-less positions); [keep] selects the indices of the cores that have a mode *)
+Theorem C02_squeeze (R : cring) (cs : list (core R)) xs ys j fin :
+  zero_at cs xs ys -> linked cs fin -> squeeze cs <> [] ->
+  chain (squeeze cs) (keep cs xs) (keep cs ys) 0%nat j = chain cs xs ys 0%nat j.
+Proof. exact (squeeze_value cs xs ys j fin). Qed.
+Print Assumptions C02_squeeze.
+
 (* diag: delta on the chosen modes, unchanged elsewhere *)
 Theorem C02_diag (R : cring) (cs : list (core R)) sel xs ys i j :
   length sel = length cs -> length xs = length cs -> length ys = length cs ->
@@ -241,3 +251,15 @@ Example ex_full_modes :
   (map (fun xq => elem (tensordot FirstFirst 1 [exS1] [exU1; exU2]) [xq] [0%nat]) [0%nat; 1%nat; 2%nat] =
    map (fun xq => dsum [2%nat] [1%nat] (fun zx zy => (elem [exS1] zx zy * elem [exU1; exU2] (zx ++ [xq]) (zy ++ [0%nat])))) [0%nat; 1%nat; 2%nat]).
 Proof. vm_compute. repeat split. Qed.
+(* squeeze on a concrete train with a leading, an inner and a trailing mode-less core *)
+Definition exQ0 : core ZIring := @mkcore ZIring 1 1 1 2 (fun _ _ _ b => (Z.of_nat (b + 1), 1%Z)).
+Definition exQ1 : core ZIring := @mkcore ZIring 2 2 1 2 (fun a x _ b => (Z.of_nat (a + 2 * x + b), (-1)%Z)).
+Definition exQ2 : core ZIring := @mkcore ZIring 2 1 1 2 (fun a _ _ b => (Z.of_nat (3 * a + b), 0%Z)).
+Definition exQ3 : core ZIring := @mkcore ZIring 2 2 1 2 (fun a x _ b => (Z.of_nat (a * x + b), 2%Z)).
+Definition exQ4 : core ZIring := @mkcore ZIring 2 1 1 1 (fun a _ _ _ => (Z.of_nat a, 1%Z)).
+Example ex_squeeze :
+  zero_at [exQ0; exQ1; exQ2; exQ3; exQ4] [0; 1; 0; 1; 0]%nat [0; 0; 0; 0; 0]%nat /\
+  linked [exQ0; exQ1; exQ2; exQ3; exQ4] 1%nat /\ length (squeeze [exQ0; exQ1; exQ2; exQ3; exQ4]) = 2%nat /\
+  keep [exQ0; exQ1; exQ2; exQ3; exQ4] [0; 1; 0; 1; 0]%nat = [1; 1]%nat /\
+  elem (squeeze [exQ0; exQ1; exQ2; exQ3; exQ4]) [1; 1]%nat [0; 0]%nat = elem [exQ0; exQ1; exQ2; exQ3; exQ4] [0; 1; 0; 1; 0]%nat [0; 0; 0; 0; 0]%nat.
+Proof. repeat split; try (cbn; lia); try (intros; discriminate); vm_compute; reflexivity. Qed.
